@@ -33,6 +33,7 @@ func (r *res) Close() { r.closed = true }
 //
 //	G get  P put oldest held  N put nil for oldest held  I idle sweep (clock +11s)
 //	S scale-in tick (clock +61s)  C<n> SetCapacity(n)  X Close  R return one pre-held resource
+//	g get with the thread's own cancellable context  K<i> cancel the context of thread i
 //
 // No thread waits for a second resource while holding one in a scenario whose capacity can
 // shrink (S, X): with a context that never expires that is a hold-and-wait deadlock by
@@ -69,6 +70,11 @@ type world struct {
 	// backend layer
 	cp    backend.ConnectionPool
 	bheld map[backend.PooledConnect]string
+	// cancellable contexts, one per thread (op g = Get with the thread's context, op K<i> =
+	// cancel the context of thread i: the caller of Get gives up while the pool may still be
+	// creating the resource for it)
+	ctxs    []context.Context
+	cancels []context.CancelFunc
 }
 
 var w *world
@@ -80,6 +86,11 @@ func (w *world) fail(format string, a ...interface{}) {
 func setup(sc scenario) {
 	vclock.Enable(time.Unix(1700000000, 0))
 	w = &world{sc: sc, held: map[*res]string{}, bheld: map[backend.PooledConnect]string{}}
+	for range sc.Threads {
+		c, cancel := context.WithCancel(context.Background())
+		w.ctxs = append(w.ctxs, c)
+		w.cancels = append(w.cancels, cancel)
+	}
 	if sc.Backend {
 		cp, err := backend.VerifNewPool(sc.Cap, sc.Max)
 		if err != nil {
@@ -121,13 +132,22 @@ func setup(sc scenario) {
 
 func runThread(w *world, name, prog string) {
 	var mine []*res
+	self := int(name[1] - '0')
 	for i := 0; i < len(prog); i++ {
 		switch prog[i] {
-		case 'G':
+		case 'K':
+			i++
+			vsched.Point("cancel", "ctx")
+			w.cancels[int(prog[i]-'0')]()
+		case 'G', 'g':
 			if w.sc.Faulty && vsched.Choose(2, 1, "factory-outage") == 1 {
 				w.failRemaining = 3
 			}
-			r, err := w.rp.Get(context.Background())
+			ctx := context.Background()
+			if prog[i] == 'g' {
+				ctx = w.ctxs[self]
+			}
+			r, err := w.rp.Get(ctx)
 			if err != nil {
 				w.getErrs++
 				w.outcome = append(w.outcome, name+":Gerr")
@@ -334,6 +354,10 @@ func scenarios(r *ev.Run) []scenario {
 		{Name: "close-scaleout", Cap: 1, Max: 2, Pre: 1, Threads: []string{"GP", "X", "R"}},
 		{Name: "close-setcap", Cap: 1, Max: 2, Threads: []string{"GP", "X", "C2"}},
 		{Name: "faulty-factory", Cap: 1, Max: 2, Faulty: true, Threads: []string{"GP", "GP"}},
+		// the caller of Get gives up (context cancelled) at any point, also while the factory call
+		// made for it is still running (added after seeded change c24-2 was missed)
+		{Name: "cancel-during-get", Cap: 1, Max: 1, Threads: []string{"gP", "K0"}},
+		{Name: "cancel-during-get-2clients", Cap: 1, Max: 2, Threads: []string{"gP", "K0", "GP"}},
 		// backend.connectionPoolImpl + pooledConnectImpl on top of the resource pool
 		{Name: "backend-2clients", Backend: true, Cap: 1, Max: 2, Threads: []string{"GP", "GP"}},
 		{Name: "backend-discard", Backend: true, Cap: 1, Max: 2, Threads: []string{"GN", "GP"}},
